@@ -327,7 +327,11 @@ def cases(tier, seed):
             s, d = tuple(rnd.sample(cov, 3)), tuple(rnd.sample(mult, 3))
             out.append(Case("H01.a", f"{'*'.join(s)}->{'*'.join(d)}", M, "h_compound", {"src_units": list(s), "dst_units": list(d), "bound": 2}, opts={"hash_mode": "const", "max_paths": 20000}, weight=60.0, validate=4))
     if big:
-        out.append(Case("H01.b", "gen-b2", M, "h_generated", {"bound": 2}, opts={"hash_mode": "const", "max_paths": 10000, "max_wall_s": 900}, weight=100.0, validate=6))
+        # every definition exponent free in [-2,2]; split over the values of (a, g) so that the
+        # cases run in parallel and stay inside the path budget
+        for a_ in (-2, -1, 1, 2):
+            for g_ in (1, 2):
+                out.append(Case("H01.b", f"gen-b2:a={a_},g={g_}", M, "h_generated", {"bound": 2, "fixed": {"a": a_, "g": g_}}, opts={"hash_mode": "const", "max_paths": 10000, "max_wall_s": 900}, weight=100.0, validate=4))
     else:
         # quick: one definition exponent pair free per case, the others pinned (seeded)
         for free in ("ab", "cd", "ac", "bd"):
